@@ -156,6 +156,10 @@ class extract_visitor(NodeVisitor):
 
         body_start = self.make_flow('for', [cur])
         for nn, _idx in get_indexes_for_target(node.target, [], []):
+            if not isinstance(nn, AstName):
+                # attribute or subscript target: binds no name, reads its parts
+                self.visit_in_flow(nn, body_start)
+                continue
             name = nn  # type: ast.Name # type: ignore[assignment]
             body_start.add_name(AssignedName(name.id, body_loc(node.body), np(name), node.iter))
         body = self.visit_in_flow(node.body, body_start)
@@ -320,6 +324,9 @@ class extract_visitor(NodeVisitor):
             pp = p
             p = self.make_flow('comp', [p])
             for nn, _idx in get_indexes_for_target(g.target, [], []):
+                if not isinstance(nn, AstName):
+                    self.visit_in_flow(nn, p)
+                    continue
                 name = nn  # type: ast.Name # type: ignore[assignment]
                 name.flow = pp  # type: ignore[attr-defined]
                 p.add_name(AssignedName(name.id, np(node), np(name), g.iter))
@@ -356,6 +363,8 @@ class extract_visitor(NodeVisitor):
                 else:
                     loc = body_loc(node.body)
                 for nn, _idx in get_indexes_for_target(it.optional_vars, [], []):
+                    if not isinstance(nn, AstName):
+                        continue
                     name = nn  # type: ast.Name # type: ignore[assignment]
                     self.flow.add_name(AssignedName(name.id, loc, np(name), node))
 
